@@ -73,6 +73,8 @@ def gen_index(i: int, seed: int, tier: str) -> dict[str, Any]:
         gws = []
         for _ in range(rng.choice([1, 2, 3])):
             g = dict(rng.choice(CAPS))
+            if g["core"] == 2 and rng.random() < 0.4:
+                g["core"] = rng.choice([3, 3, 4, 255])      # later versions of the core family: what holds for 2 holds for them
             g["disc"] = {"ext": rng.choice(["ok", "ok", "drop", 0.5, 2.0]), "plain": rng.choice(["ok", "ok", "drop", 0.3, 2.5])}
             g["empty_secured_dib"] = rng.random() < 0.2
             g["dib_order"] = rng.choice(["std", "std", "secured_first", "reversed", "families_last"])
